@@ -250,6 +250,14 @@ func (g *jsonGen) scalarArray() {
 		}
 		switch {
 		case k < 3:
+		case k < 6 && g.r.Chance(1, 3):
+			// a string whose content spells a literal of another kind (same text, different member)
+			lit := mon.Pick(g.r, []string{"true", "false", "null", strconv.Itoa(i + 1), "-" + strconv.Itoa(i+1)})
+			if usedLit["s:"+lit] {
+				lit = strconv.Itoa(i+1) + ".0"
+			}
+			usedLit["s:"+lit] = true
+			g.sb.WriteString(`"` + lit + `"`)
 		case k < 6:
 			g.sb.WriteByte('"')
 			g.sb.WriteString(strconv.Itoa(i))
